@@ -63,6 +63,34 @@ def _rect(x):
     return [len(x), *sh0], leaves
 
 
+LAYOUTS = ["C", "F", "T", "strided", "neg", "swapped", "readonly"]
+
+
+def lay(a, how):
+    """the same logical array in another MEMORY LAYOUT: Fortran order, transposed view, strided slice
+    of a larger buffer, negative strides, non-native byte order, read-only"""
+    a = np.asarray(a)
+    if how == "F":
+        return np.asfortranarray(a)
+    if how == "T":
+        return np.ascontiguousarray(a.T).T
+    if how == "strided":
+        big = np.zeros(tuple(2 * d for d in a.shape), dtype=a.dtype)
+        v = big[tuple(slice(None, None, 2) for _ in a.shape)]
+        v[...] = a
+        return v
+    if how == "neg":
+        rev = tuple(slice(None, None, -1) for _ in a.shape)
+        return np.ascontiguousarray(a[rev])[rev]
+    if how == "swapped":
+        return a.astype(a.dtype.newbyteorder())
+    if how == "readonly":
+        b = np.array(a, copy=True)
+        b.setflags(write=False)
+        return b
+    return np.ascontiguousarray(a)
+
+
 def enc(x):
     """canonical tagged form of a Python / numpy attribute value"""
     if x is None:
@@ -111,6 +139,8 @@ def dec(t):
         return _unflatten(t[1], [dec(v) for v in t[2]])
     if k == "n":  # numpy scalar: ["n", dtype, tagged]
         return np.dtype(t[1]).type(dec(t[2]))
+    if k == "A":  # numpy array in a given memory layout: ["A", layout, dtype, shape, leaves]
+        return lay(np.array([dec(v) for v in t[4]], dtype=t[2]).reshape(t[3]), t[1])
     raise ValueError(t)
 
 
@@ -156,7 +186,15 @@ def _diff_attrs(where, exp, obs, out):
 
 def norm_value(t):
     """numpy-scalar inputs (["n", dtype, v]) denote the Python value of the same kind"""
-    return enc(dec(t)) if t[0] == "n" else t
+    return enc(dec(t)) if t[0] in ("n", "A") else t  # enc of an ndarray is logical: C-order tolist()
+
+
+def model_view(G):
+    """the graph as the (layout-free) Lean model sees it: arrays by shape and C-order leaves"""
+    def attrs(a):
+        return {k: (norm_value(v) if v[0] == "A" else v) for k, v in a.items()}
+    return {"directed": G["directed"], "nodes": [[i, attrs(a)] for i, a in G["nodes"]],
+            "edges": [[list(e), attrs(a)] for e, a in G["edges"]]}
 
 
 def norm_graph(G):
@@ -379,14 +417,15 @@ def dec_prop(P, n):
         dt = np.dtype(f"U{w}")
     else:
         dt = np.dtype(P["dtype"])
+    how = P.get("layout", "C")
     if P["varlen"]:
         v = np.empty((n,), dtype=object)
         for i, (sh, lv) in enumerate(P["rows"]):
-            v[i] = np.array([dec(x) for x in lv], dtype=dt).reshape(sh)
+            v[i] = lay(np.array([dec(x) for x in lv], dtype=dt).reshape(sh), how)
     else:
         sh = P["rows"][0][0] if P["rows"] else P.get("elem_shape", [])
         flat = [dec(x) for r in P["rows"] for x in r[1]]
-        v = np.array(flat, dtype=dt).reshape([n, *sh])
+        v = lay(np.array(flat, dtype=dt).reshape([n, *sh]), how)
     return {"values": v, "missing": None if P["missing"] is None else np.array(P["missing"], dtype=bool)}
 
 
@@ -672,7 +711,7 @@ EDGE_PATTERNS = [[], [(0, 1)], [(1, 0)], [(0, 0)], [(0, 1), (1, 2)], [(2, 1), (0
                  [(0, 1), (0, 2), (1, 1)], [(2, 0), (1, 0), (2, 1)]]
 
 
-def gen_exhaustive(rng, idsets=("small", "sparse", "around63", "large")):
+def gen_exhaustive(rng, idsets=("small", "sparse", "around63", "large"), quick=False):
     """<=3 nodes / <=3 edges x presence subsets x kinds (node sweep and edge sweep)"""
     out = []
     for idset in idsets:
@@ -697,7 +736,7 @@ def gen_exhaustive(rng, idsets=("small", "sparse", "around63", "large")):
                 k = bin(mask).count("1")
                 vals = iter(gen_values(rng, kind, k))
                 edges = [[[ids[a], ids[b]], ({"q": next(vals)} if mask >> i & 1 else {})] for i, (a, b) in enumerate(pat)]
-                for directed in (True, False):
+                for directed in ((bool((mask + len(pat)) % 2),) if quick else (True, False)):
                     out.append({"G": {"directed": directed, "nodes": [[x, {}] for x in ids], "edges": edges},
                                 "tag": f"exh-edge:{kind}", "ids": "sparse", "kinds": {"q": kind}})
     return out
@@ -826,6 +865,8 @@ def gen_prop(rng, n, dt=None, allow_missing=True, allow_varlen=True):
         cnt = int(np.prod(sh)) if sh else 1
         P = {"dtype": dt, "varlen": False, "rows": [[sh, [lf() for _ in range(cnt)]] for _ in range(n)], "elem_shape": sh}
     P["missing"] = None
+    if rng.random() < 0.5:
+        P["layout"] = rng.choice(LAYOUTS)
     if allow_missing and rng.random() < 0.5:
         P["missing"] = [rng.random() < 0.4 for _ in range(n)]
     return P
@@ -858,6 +899,7 @@ def gen_mem(rng, nmax=12, sg_domain=False, valid=True):
         M["axes"] = ["t", "y", "x"][-ndims:]
         for ax in M["axes"]:
             M["node_props"][ax] = {"dtype": pd, "varlen": False, "missing": None, "elem_shape": [],
+                                   "layout": rng.choice(["C", "strided", "neg", "readonly"]),
                                    "rows": [[[], [typed_leaf(rng, pd, finite=True)]] for _ in range(n)]}
         for k, dt in na.items():
             M["node_props"][k] = {"dtype": dt, "varlen": False, "missing": None, "elem_shape": [],
@@ -1132,10 +1174,10 @@ def check_dict_props(ck, case, res):
                 return
             if has:
                 got = row_value(P, i)
-                if got != a[name]:
+                if got != norm_value(a[name]):
                     G = {"nodes": case["data"], "edges": []}
                     d = []
-                    _diff_attrs(f"element {i}", {name: a[name]}, {name: got}, d)
+                    _diff_attrs(f"element {i}", {name: norm_value(a[name])}, {name: got}, d)
                     ck.fail(classify("dict_props_to_arr", G, diffs=d), f"dict_props_to_arr: {d[0][1]}", case, P, a[name])
                     return
 
@@ -1326,6 +1368,7 @@ def roundtrip_request(c):
     G = c["G"]
     if _has_np(G):
         return {"op": "nomodel"}
+    G = model_view(G)
     ax = c.get("axes") or c.get("model_axes")
     req = {"axes": ax} if ax else {}
     if c["writer"] == "nx":
@@ -1463,11 +1506,12 @@ def do_sg(ck, drv, cases, stats):
 
 def do_dicts(ck, drv, cases, stats):
     res = common.pmap(impl_dict_props, cases, chunksize=64)
-    model = drv.ask([{"op": "dictProps", "data": c["data"], "names": c["names"]} for c in cases]) if drv else None
+    model = drv.ask([{"op": "dictProps", "data": model_view({"directed": True, "nodes": c["data"], "edges": []})["nodes"],
+                      "names": c["names"]} for c in cases]) if drv else None
     if drv and model is None:
         ck.broken.append({"what": "driver Drivers/C03.lean (dictProps)", "detail": drv.broken})
     for k, (c, r) in enumerate(zip(cases, res)):
-        ck.case(c, "dict_props_to_arr:" + ("none-combo" if "states" in c else "mixed-kinds" if c["mixed"] else "uniform"),
+        ck.case(c, "dict_props_to_arr:" + ("none-combo" if "states" in c else "layout" if "layout" in c else "mixed-kinds" if c["mixed"] else "uniform"),
                 nontrivial=any(a for _, a in c["data"]))
         if not c["mixed"]:
             check_dict_props(ck, c, r)
@@ -1477,6 +1521,50 @@ def do_dicts(ck, drv, cases, stats):
         impl = r if "exc" in r else r["props"]
         st = cmp_outcome(ck, "C03:dictPropsToArr", c, impl, mo, canonical=False)
         stats["model_dict_" + st] += 1
+
+
+def gen_layout_items(rng, nrand):
+    """array-valued attributes given as numpy arrays in every MEMORY LAYOUT (same logical contents):
+    fixed-shape and ragged, 1-d / 2-d / 3-d, int64 / float64 / bool / str, on nodes and on edges, on a
+    subset of the elements; exhaustive over layout x form x dtype, then per-element random layouts"""
+    forms = {"fixed2d": [[2, 3]] * 3, "ragged2d": [[2, 3], [3, 3], [1, 3]], "ragged2d-b": [[3, 2], [3, 4], [3, 1]],
+             "fixed1d": [[4]] * 3, "ragged1d": [[4], [2], [5]], "ragged3d": [[2, 2, 2], [1, 2, 2], [2, 2, 2]]}
+    dts = ["int64", "float64", "bool", "U2"]
+
+    def arr(dt, sh, how, seed):
+        cnt = int(np.prod(sh))
+        if dt == "int64":
+            lv = [["i", str(seed * 100 + j - 7)] for j in range(cnt)]
+        elif dt == "float64":
+            lv = [["f", f2h(seed * 10 + j + 0.25)] for j in range(cnt)]
+        elif dt == "bool":
+            lv = [["b", (seed + j * j) % 3 == 0] for j in range(cnt)]
+        else:
+            lv = [["s", "abcdefgh"[(seed + j) % 8] + "xy"[(j // 3) % 2]] for j in range(cnt)]
+        return ["A", how, dt, list(sh), lv]
+
+    def item(form, dt, hows, tag, directed):
+        shapes = forms[form]
+        ids = ["7", "3", "40", "12"]
+        nodes = [[i, {}] for i in ids]
+        for k in range(3):  # node 12 lacks the property
+            nodes[k][1]["p"] = arr(dt, shapes[k], hows[k], k + 1)
+        pairs = [("7", "3"), ("3", "40"), ("40", "12"), ("12", "7")]
+        edges = [[list(e), {}] for e in pairs]
+        for k in range(3):  # the last edge lacks it
+            edges[k][1]["q"] = arr(dt, shapes[(k + 1) % 3], hows[(k + 1) % 3], k + 5)
+        return {"G": {"directed": directed, "nodes": nodes, "edges": edges}, "tag": tag}
+
+    out = []
+    k = 0
+    for how in LAYOUTS:
+        for form in forms:
+            for dt in dts:
+                out.append(item(form, dt, [how] * 3, f"layout:{how}", k % 2 == 0))
+                k += 1
+    for _ in range(nrand):
+        out.append(item(rng.choice(list(forms)), rng.choice(dts), [rng.choice(LAYOUTS) for _ in range(3)], "layout:mixed", rng.random() < 0.5))
+    return out
 
 
 def flip_graph(G):
@@ -1576,7 +1664,9 @@ def run(ck: common.Check):
                "list, empty list} over <=3 elements (sampled to 8) — None next to lists = missing; the metadata= argument as None, "
                "as a fresh object whose `directed` disagrees with the graph class, and as the object returned by reading an "
                "earlier geff of the other directedness (read -> convert -> write -> read histories of 2 and 3 steps, all "
-               "writer/reader pairs); in-memory geffs (9 dtypes, scalar/vector/matrix/var-length, missing masks, 5 id "
+               "writer/reader pairs); array-valued attributes as numpy arrays in 7 memory layouts (C, Fortran, transposed view, "
+               "strided, negative strides, non-native byte order, read-only) x fixed/ragged 1-3-d x 4 dtypes, compared "
+               "logically; in-memory geffs (9 dtypes, scalar/vector/matrix/var-length, missing masks, 5 id "
                "dtypes) constructed through every backend and its adapter; dict_props_to_arr called directly. non-trivial = at "
                "least one attribute or edge; distinct = distinct canonical JSON of the case")
     rng = ck.rng
@@ -1591,11 +1681,13 @@ def run(ck: common.Check):
     # ---- A: networkx / rustworkx writers
     items = [{"G": c["G"], "tag": "corpus:" + c.get("name", "?"), **{k: c[k] for k in ("axes", "readers", "md", "history", "model_axes") if k in c}} for c in corpus() if "G" in c]
     items += [{"G": it["G"], "tag": "special:" + tag} for tag, _, it in SPECIAL]
-    items += gen_exhaustive(rng, ("small", "around63") if ck.quick else ("small", "sparse", "around63", "large"))
+    items += gen_exhaustive(rng, ("small", "around63") if ck.quick else ("small", "sparse", "around63", "large"), quick=ck.quick)
     nrand = 300 if ck.quick else 3500
     items += [gen_random_graph(rng) for _ in range(nrand)]
     items += [gen_random_graph(rng, nmax=8, kinds=[*KINDS, "npscalar", "npscalar", "npscalar"]) for _ in range(nrand // 4)]
     items += gen_none_items(rng, 40 if ck.quick else 600)
+    lay_items = gen_layout_items(rng, 30 if ck.quick else 600)
+    items += lay_items
     items += sg_cross_items(rng, 24 if ck.quick else 200)
     pool = [gen_random_graph(rng, nmax=10) for _ in range(60 if ck.quick else 400)] + \
         [it for it in sg_cross_items(rng, 16 if ck.quick else 80) if it["tag"] == "cross-sg"]
@@ -1634,6 +1726,7 @@ def run(ck: common.Check):
     cd = [{"stream": "dict", **gen_dict_case(rng)} for _ in range(nd)]
     cd += [{"stream": "dict", **gen_dict_case(rng, mixed=True)} for _ in range(nd // 4)]
     cd += gen_none_dict_cases(rng, 60 if ck.quick else 1500)
+    cd += [{"stream": "dict", "data": it["G"]["nodes"], "names": ["p"], "mixed": False, "layout": it["tag"]} for it in lay_items]
     t1 = __import__("time").time()
     do_dicts(ck, drv, cd, stats)
     phase["dicts"] = round(__import__("time").time() - t1, 1)
@@ -1649,6 +1742,11 @@ def run(ck: common.Check):
         "networkx / rustworkx / spatial-graph containers are modelled by the dict / list operations geff uses, not verified",
         "numpy's dtype inference is the chain bool < {int64,uint64} < float64 < str < object; casts between kinds "
         "(int -> float rounding, anything -> str) are outside the model and outside the property's domain (one kind per property)",
+        "memory layout (C / Fortran order, strides, byte order, writability) is BELOW the Lean model: an array value is its "
+        "shape and its C-order leaves; that every layout of the same logical array is written and read back identically is "
+        "checked only by the harness (layout streams of the round trips, of dict_props_to_arr and of construct). "
+        "spatial-graph itself accepts only C-contiguous native writable buffers (library domain): for that backend the "
+        "layouts are varied on the axis columns of in-memory geffs only (they pass through np.stack)",
         "domain: str values without trailing NUL characters (numpy's fixed-width unicode drops them); ragged lists of one "
         "rank whose elements have the same numpy dtype individually (an empty Python list is float64); finite spatial-graph positions",
     ]
